@@ -493,7 +493,10 @@ def check_field_arrays(chk, v, f, rel, fext, earr):
                 s_, d_ = "proved", "under the enclosing conditions"
         if s_ == "refuted" and not (e_full and n_full):
             s_ = "unknown"
-        if s_ != "proved":
+        exact = all(sym.const_value(l_.get("step")) in (1, -1) and l_.get("cmp") in ("<", "<=", ">", ">=") for l_ in loops)
+        if s_ != "proved" and exact:
+            # (the highest index is attained only when every enclosing loop moves in unit steps; with a stride the range used here
+            # is an over-approximation and proves nothing about a violation)
             # a witness: small values of the parameter-set dimensions for which the extent is exceeded whatever the other
             # quantities are (scalar parameters the function itself uses as a bare subscript are >= 0 in every valid call)
             import itertools as _it2
